@@ -21,7 +21,10 @@ rows = ["| seed | change (abridged) | caught by `bin/check <ID>` | failing input
         "|---|---|---|---|---|"]
 for name in sorted(rs, key=lambda n: (n.split("-")[0], int(n.split("-")[1]))):
     r = rs[name]
-    if r.get("status") == "ok":
+    if r.get("status") == "ok" and r.get("demo_mutated_exit") == 0 and not r.get("caught"):
+        c = "n/a: after a later `fix:` commit the change no longer breaks the property (its demo passes)"
+        w, fb = "-", ""
+    elif r.get("status") == "ok":
         c = "yes" if r.get("caught") else "NO"
         w = "yes" if r.get("failing_input_found") else ("no" if r.get("caught") else "-")
         fb = str(r.get("first_broken", ""))[:90].replace("|", "\\|")
